@@ -147,6 +147,12 @@ func history(g *hx.Gen, steps int) {
 	for s := 0; s < steps; s++ {
 		c := r.Intn(100)
 		switch {
+		case c < 6 && len(active.Blocks) >= 3: // a non-zero and a zero-value output of one address, spent together
+			if pair := h.ZeroValuePair(active); pair != nil {
+				br := deliver(active, pair[0])
+				h.Observe(false, 8)
+				deliver(br, pair[1])
+			}
 		case c < 78 || len(active.Blocks) < 3:
 			deliver(active, h.HonestBlock(active, 3))
 		case c < 94: // a longer branch from 1–4 blocks back: reorganisation
